@@ -25,13 +25,15 @@ LGF == Loc(M0, 6, <<Ln(G, 21, 0), Ln(F, 11, 0)>>, FALSE)
 LFF == Loc(M0, 7, <<Ln(F, 10, 0), Ln(G, 20, 0)>>, FALSE)     \* f:10 inlined here, a real call elsewhere
 LF2 == Loc(M0, 9, <<Ln(F2, 10, 0)>>, FALSE)
 LU  == Loc(M0, 8, <<>>, FALSE)
-StackShapes == { <<>>, <<LF>>, <<LG, LF>>, <<LF, LG, LF>>, <<LG, LF, LG, LF>>, <<LF, LF, LG>>, <<LGF, LG>>, <<LF, LFF>>, <<LFF, LF>>, <<LU>>, <<LF, LU, LG>>, <<LF2, LF>>, <<LF, LG, LG, LF, LG>> }
+L3  == Loc(M0, 10, <<Ln(G, 22, 0), Ln(F, 12, 0), Ln(F2, 13, 0)>>, FALSE)   \* an inline chain of three: the middle frame is inlined as well
+StackShapes == { <<>>, <<LF>>, <<LG, LF>>, <<LF, LG, LF>>, <<LG, LF, LG, LF>>, <<LF, LF, LG>>, <<LGF, LG>>, <<LF, LFF>>, <<LFF, LF>>, <<LU>>, <<LF, LU, LG>>, <<LF2, LF>>, <<LF, LG, LG, LF, LG>>, <<L3>>, <<LF, L3>> }
 Grans == IF Tier = "thorough" THEN {"functions", "filefunctions", "files", "lines", "addresses"} ELSE {"functions", "lines", "files"}
 Cfg0(g, ni) == [gran |-> g, noinl |-> ni, si |-> 2, mean |-> FALSE, troot |-> <<>>, tleaf |-> <<>>]
 Cases == IF Tier = "guard"
          THEN { [samples |-> << Smp(<<LF, LG, LF>>, <<1, 3>>, <<>>, <<>>), Smp(<<LF, LFF>>, <<1, 0 - 2>>, <<>>, <<>>) >>, cfg |-> Cfg0("lines", FALSE)] }
          ELSE { [samples |-> << Smp(a, <<1, 3>>, <<>>, <<>>), Smp(b, <<1, 0 - 2>>, <<>>, <<>>) >>, cfg |-> Cfg0(g, ni)] :
                   a \in StackShapes, b \in StackShapes, g \in Grans, ni \in BOOLEAN }
+              \cup { [samples |-> <<>>, cfg |-> Cfg0(g, FALSE)] : g \in Grans }                  \* no sample at all: only the root
 
 VARIABLES case, pc, idx, sources, stacks
 vars == <<case, pc, idx, sources, stacks>>
